@@ -112,6 +112,31 @@ theorem bisim_checked {rules : List Rule} {tbl : Mode} (h : bisim rules tbl = .o
   obtain ⟨R, hC⟩ := bisim_ok h
   exact ⟨hC.wf, rulesOK_iff.mp hC.rulesOK⟩
 
+/-- "No rule matches the empty string" (a hypothesis of C02) is exactly what makes state 0
+non-accepting in a validated table (first half of `startClean`; the generated `PushRune` takes state
+0 to mean "nothing consumed yet"). -/
+theorem start_nonaccepting_iff {rules : List Rule} {tbl : Mode} (h : bisim rules tbl = .ok ()) :
+    rowPairs tbl 0 = [] ↔ ∀ r ∈ rules, nullable r.1 = false := by
+  have h0 : tableRun tbl [] = some (rowPairs tbl 0) := rfl
+  have hiff := bisim_nonaccepting_iff h []
+  rw [h0] at hiff
+  constructor
+  · intro he r hr
+    have := (hiff.mp (by rw [he])).2 r hr
+    cases hn : nullable r.1 with
+    | false => rfl
+    | true => exact absurd ((Lox.Lex.nullable_iff r.1).mp hn) this
+  · intro hall
+    have hv : viable rules [] := by
+      by_cases hv : viable rules []
+      · exact hv
+      · have := (bisim_dead_iff h []).mpr hv
+        rw [h0] at this; cases this
+    have := hiff.mpr ⟨hv, fun r hr hm => by
+      have := (Lox.Lex.nullable_iff r.1).mpr hm
+      rw [hall r hr] at this; cases this⟩
+    simpa using this
+
 /-! ### `PushRune` walks the decoded automaton -/
 
 /-- On a well-formed table, in state `q` of mode `m`: `PushRune c` consumes and moves to `q'` iff
@@ -248,5 +273,21 @@ example : startClean exTbl = true ∧ (#[exTbl])[(({} : Lx).sm).mode.getD 0]? = 
 example : (({} : Lx).rest #[(105, 1), (102, 1), (32, 1), (97, 1)]).take
     (scanLen exTbl 0 (({} : Lx).rest #[(105, 1), (102, 1), (32, 1), (97, 1)])) = [105, 102] := by
   decide +kernel
+
+/-- Hypotheses of `munch_error` on the input `"A"`: nothing is consumed, no rule matches the empty
+prefix, and the offending rune is not end-of-input. Those of `munch_eof` hold on the empty input. -/
+example : (∀ r ∈ exRules, ¬ Matches r.1 ((({} : Lx).rest #[(65, 1)]).take
+      (scanLen exTbl 0 (({} : Lx).rest #[(65, 1)])))) ∧
+    ((({} : Lx).advance #[(65, 1)] (scanLen exTbl 0 (({} : Lx).rest #[(65, 1)]))).char #[(65, 1)]
+      ≠ -1) ∧ ({} : Lx).rest #[] = [] := by
+  have h : (({} : Lx).rest #[(65, 1)]).take (scanLen exTbl 0 (({} : Lx).rest #[(65, 1)])) = [] := by
+    decide +kernel
+  have hn : ∀ r ∈ exRules, nullable r.1 = false := by decide
+  refine ⟨?_, by decide +kernel, rfl⟩
+  rw [h]
+  intro r hr hm
+  have := (Lox.Lex.nullable_iff r.1).mpr hm
+  rw [hn r hr] at this
+  cases this
 
 end Lox.Props.C02
